@@ -1101,6 +1101,8 @@ def rule_unit_interval(crate, prop, tier):
         def cint(t):
             if t[0] == "const" and isinstance(t[2], int):
                 return t[2]
+            if t[0] == "constx" and t[1] in ("f64", "f32") and t[2].endswith(t[1]) and t[2][:-3].isdigit():
+                return int(t[2][:-3])      # an integral float constant (2^52 written as 4503599627370496.0)
             if t[0] == "bin" and t[1] == "Shl" and cint(t[2]) is not None and cint(t[3]) is not None:
                 return cint(t[2]) << cint(t[3])
             if t[0] == "bin" and t[1] == "Sub" and cint(t[2]) is not None and cint(t[3]) is not None:
